@@ -27,6 +27,12 @@ type ScriptConn struct {
 	// deadline that expires: a net.Error with Timeout() true).
 	BlockErr error
 
+	// EmptyBefore: every read that would deliver octets is preceded by one that
+	// returns (0, nil) - allowed by io.Reader, produced by transports that frame
+	// their payload (a frame without payload)
+	EmptyBefore bool
+	gaveEmpty   bool
+
 	pos   int
 	chunk int
 
@@ -88,6 +94,12 @@ func (c *ScriptConn) Read(p []byte) (int, error) {
 		}
 		return 0, io.EOF
 	}
+	if c.EmptyBefore && !c.gaveEmpty && len(p) > 0 {
+		c.gaveEmpty = true
+		c.ZeroReads++
+		return 0, nil
+	}
+	c.gaveEmpty = false
 	n := len(p)
 	if len(c.Chunks) > 0 {
 		m := c.Chunks[min(c.chunk, len(c.Chunks)-1)]
